@@ -108,3 +108,15 @@ add("C08", "exploration", [
      "shards": {"quick": 4, "thorough": 8}, "checks": {"quick": 8, "thorough": 60},
      "timeout": {"quick": 600, "thorough": 3000}},
 ])
+
+add("C16", "exploration", [
+    {"name": "c16-codec", "bin": "exec", "pkg": "./exec", "run": "^TestVerifC16InvocationCodec$",
+     "shards": {"quick": 4, "thorough": 8}, "checks": {"quick": 1500, "thorough": 50000},
+     "timeout": {"quick": 600, "thorough": 3000}},
+    {"name": "c16-args", "bin": "c16", "pkg": ZZ + "c16", "run": "^TestVerifC16Arguments$",
+     "shards": {"quick": 6, "thorough": 12}, "checks": {"quick": 60, "thorough": 2500},
+     "timeout": {"quick": 600, "thorough": 3000}},
+    {"name": "c16-diff", "bin": "c16", "pkg": ZZ + "c16", "run": "^TestVerifC16LocationsDiff$",
+     "shards": {"quick": 4, "thorough": 8}, "checks": {"quick": 2000, "thorough": 60000},
+     "timeout": {"quick": 600, "thorough": 3000}},
+])
